@@ -1,1 +1,19 @@
-//! Hooks for property C39 (empty unless needed).
+//! Hooks for property C39. In place in `store/signed_packets.rs`:
+//! events `dnssrv.store.batch_begin`, `dnssrv.store.msg` (one per message handled inside a write batch),
+//! `dnssrv.store.commit`, `dnssrv.store.snapshot_outside_batch`; the async gates `dnssrv.evict.cycle_start`
+//! at the top of every eviction cycle and `dnssrv.evict.before_check_expired` before every `CheckExpired` send; the seam `dnssrv.evict.now` which owns the eviction cut-off
+//! (`clock_micros(label, real_cutoff) -> cutoff`, microseconds) in the eviction scan and in `CheckExpired`.
+//! The store over a caller-supplied redb backend is `c37::App::new`.
+pub use super::c37::{App, StoreOptions};
+
+pub const EVENT_BATCH_BEGIN: &str = "dnssrv.store.batch_begin";
+pub const EVENT_MSG: &str = "dnssrv.store.msg";
+pub const EVENT_COMMIT: &str = "dnssrv.store.commit";
+pub const EVENT_SNAPSHOT_OUTSIDE_BATCH: &str = "dnssrv.store.snapshot_outside_batch";
+pub const GATE_EVICT_CYCLE: &str = "dnssrv.evict.cycle_start";
+pub const GATE_BEFORE_CHECK_EXPIRED: &str = "dnssrv.evict.before_check_expired";
+pub const SEAM_EVICT_CUTOFF: &str = "dnssrv.evict.now";
+
+/// On-disk table names (part of the storage format).
+pub const SIGNED_PACKETS_TABLE: &str = "signed-packets-1";
+pub const UPDATE_TIME_TABLE: &str = "update-time-1";
